@@ -161,15 +161,6 @@ def stream_calculators(chk, drv, rng, tier):
             judge(chk, 'calc.' + fn + (':' + kw['confint'] if kw else ''), SCALE[fn], recs, case)
 
 
-def overflow_site(fn, kw):
-    """where the unchanged code squares / cubes a fixed-width integer (recorded findings); anything else is new"""
-    if kw.get('confint') == 'hypergeometric':
-        return 'hypergeometric_total_squared'
-    if fn in ('incidence_rate_ci', 'incidence_rate_difference'):
-        return 'person_time_squared'
-    return 'other'
-
-
 def stream_dtypes(chk, rng, tier):
     """count calculators fed numpy fixed-width scalars and 0-d arrays: every count, group total and grand total fits
     the dtype, so the result must be the one obtained from plain Python numbers (an se / limit that depends on the
@@ -211,8 +202,7 @@ def stream_dtypes(chk, rng, tier):
                     rt, at = (2e-5, 2e-6) if dt == 'float32' else (1e-12, 1e-14)
                     ok = got is not None and all(close(g, w, rtol=rt, atol=at) for g, w in zip(got, base))
                     chk.d(ok, 'count calculator: estimate, se and limits do not depend on the numeric container type '
-                          '(numpy fixed-width scalar / 0-d array vs Python number)', case,
-                          signature={'clause': 'fixed_width_dtype', 'site': overflow_site(fn, kw)})
+                          '(numpy fixed-width scalar / 0-d array vs Python number)', case)
 
 
 FRAME = {'RiskRatio': [('RiskRatio', 'SD(RR)', 'RR_LCL', 'RR_UCL', 'log'), ('Risk', 'SD(Risk)', 'Risk_LCL', 'Risk_UCL', 'lin')],
